@@ -100,4 +100,53 @@ theorem sumRange_zero_fn (n : Nat) : sumRange n (fun _ => (0 : Int)) = 0 := by
   | succ k ih => simp only [sumRange, ih]; rfl
 
 
+theorem sumRange_split (n m : Nat) (g : Nat → Int) : sumRange (n + m) g = sumRange n g + sumRange m (fun j => g (n + j)) := by
+  induction m with
+  | zero => simp [sumRange]
+  | succ t iht =>
+    have : n + (t + 1) = (n + t) + 1 := by omega
+    rw [this]
+    simp only [sumRange, iht]
+    omega
+
+theorem sumRange_zero_of (m : Nat) (g : Nat → Int) (hg : ∀ k, k < m → g k = 0) : sumRange m g = 0 := by
+  induction m with
+  | zero => rfl
+  | succ t iht =>
+    simp only [sumRange]
+    rw [iht (fun k hk => hg k (by omega)), hg t (by omega)]
+    rfl
+
+/-- a sum over `(n - 1) * sc + 1` indices whose terms vanish off the multiples of `sc` -/
+theorem sumRange_sparse (n sc : Nat) (hn : 0 < n) (hsc : 0 < sc) (g : Nat → Int) (hz : ∀ k, k % sc ≠ 0 → g k = 0) :
+    sumRange ((n - 1) * sc + 1) g = sumRange n fun k => g (k * sc) := by
+  induction n with
+  | zero => omega
+  | succ m ih =>
+    cases m with
+    | zero => simp [sumRange]
+    | succ t =>
+      have e : (t + 1 + 1 - 1) * sc + 1 = ((t + 1 - 1) * sc + 1) + sc := by
+        simp only [Nat.add_sub_cancel]
+        rw [Nat.add_mul, Nat.one_mul]; omega
+      rw [e, sumRange_split, ih (by omega)]
+      have hlast : sumRange sc (fun j => g ((t + 1 - 1) * sc + 1 + j)) = g ((t + 1) * sc) := by
+        obtain ⟨p, hp⟩ : ∃ p, sc = p + 1 := ⟨sc - 1, by omega⟩
+        subst hp
+        simp only [sumRange]
+        rw [sumRange_zero_of p _ (by
+          intro k hk
+          apply hz
+          simp only [Nat.add_sub_cancel]
+          have : (t * (p + 1) + 1 + k) % (p + 1) = (1 + k) % (p + 1) := by
+            rw [Nat.add_assoc, Nat.add_comm, Nat.add_mul_mod_self_right]
+          rw [this, Nat.mod_eq_of_lt (by omega)]
+          omega)]
+        simp only [Nat.add_sub_cancel]
+        have : t * (p + 1) + 1 + p = (t + 1) * (p + 1) := by rw [Nat.add_mul, Nat.one_mul]; omega
+        rw [this]; omega
+      rw [hlast]
+      simp only [sumRange]
+
+
 end VelaVerif.Lemmas.StridedConv
